@@ -42,31 +42,34 @@ def run(c, facts, tier):
     framed, plain = framed_manager(facts)
     c.ob("C10.choice", "scheme::manager", "exactly one manager reports a destination table", framed is not None and plain is not None, "framed=%s plain=%s (plain manager's printer_map is the constant None)" % (framed, plain))
     comp = c09.compile_fn(facts)
-    expname = comp.params[0][0]
-    sel = None
-    for st in comp.body["stmts"]:
-        if st["k"] == "let" and st["init"] is not None and st["init"]["k"] == "if" and find_all(st["init"]["cond"], lambda n: n.get("k") == "mcall" and n["m"] == ff.name):
-            sel = st
-    ok = None
-    det = "no `if exp.complex_frames()` selecting the manager"
-    if sel is not None:
-        cond = sel["init"]["cond"]
-        neg = cond["k"] == "unary" and cond["op"] == "!"
-        call = cond["e"] if neg else cond
-        tb, eb = (sel["init"]["else"], sel["init"]["then"]) if neg else (sel["init"]["then"], sel["init"]["else"])
-        names_t = {n["segs"][0] for n in find_all(tb, lambda n: n.get("k") == "path" and n["segs"][0] in codegen.MANAGERS)}
-        names_e = {n["segs"][0] for n in find_all(eb, lambda n: n.get("k") == "path" and n["segs"][0] in codegen.MANAGERS)} if eb else set()
-        ok = call["k"] == "mcall" and rx.is_var(call["recv"], expname) and names_t == {framed} and names_e == {plain}
-        det = "complex_frames()=true selects %s, false selects %s (framed manager: %s)" % (sorted(names_t), sorted(names_e), framed)
-        mname = rx.pat_bindings(sel["pat"])
-    c.ob("C10.choice", comp.key, "framed manager iff complex_frames()", ok, det, witness="-print0 (needs framed) / -print (needs plain)" if ok is False else None)
-    lits = find_all(comp.body, lambda n: n.get("k") == "struct" and n["segs"][-1] == "CompiledExpression")
-    okm = False
-    if lits and sel is not None:
-        for f in lits[0]["fields"]:
-            if f["name"] == "io_map":
-                e = f["e"]
-                okm = e["k"] == "mcall" and e["m"] == "printer_map" and rx.is_var(e["recv"], mname[0])
+    from .. import toplevel
+
+    T = toplevel.summary(facts)
+    cf = "@0.%s()" % ff.name
+    paths = T["paths"]
+
+    def mgrs(val):
+        out = set()
+        for p_ in paths:
+            if p_["conds"].get(cf) is val:
+                for c_ in p_["calls"]:
+                    if c_["method"] == "compile" and len(c_["args"]) >= 2:
+                        out.add(toplevel.ctor_of(c_["args"][1]))
+        return out
+
+    branched = bool(paths) and all(cf in p_["conds"] for p_ in paths)
+    mt, mf = mgrs(True), mgrs(False)
+    ok = branched and mt == {"%s::default" % framed} and mf == {"%s::default" % plain} and not any(p_["unknown"] for p_ in paths)
+    det = "complex_frames()=true compiles with %s, false with %s (framed manager: %s)" % (sorted(x or "?" for x in mt), sorted(x or "?" for x in mf), framed) if branched else "no branch on `%s` of the input selects the manager" % cf
+    c.ob("C10.choice", comp.key, "framed manager iff complex_frames()", ok, det, witness="-print0 (needs framed) / -print (needs plain)" if not ok else None)
+    okm = bool(paths)
+    for p_ in paths:
+        if p_["outcome"] != "ok" or not p_["fields"]:
+            continue
+        io = p_["fields"].get("io_map")
+        used = {toplevel.ctor_of(c_["args"][1]) for c_ in p_["calls"] if c_["method"] == "compile" and len(c_["args"]) >= 2}
+        if not (isinstance(io, dict) and io.get("kind") == "mcall" and io.get("method") == "printer_map" and {toplevel.ctor_of(io)} == used):
+            okm = False
     c.ob("C10.choice", comp.key, "the destination table is the selected manager's", okm, "io_map: manager.printer_map(): %s" % okm)
     # C10.key — Target derives, keys
     tgt = facts.enum("Target")
